@@ -557,6 +557,10 @@ func (g *Gen) subRef(st types.Type, i int, r string) string {
 	}
 	t := fmt.Sprintf("(|%s| %s)", fn, r)
 	key := "inj:" + t
+	if strings.Contains(r, " q_") || strings.Contains(r, "(q_") || strings.HasPrefix(r, "q_") {
+		// r mentions a quantifier's bound variable: no ground fact can be stated about it here
+		return t
+	}
 	if !g.prelSeen[key] {
 		g.prelSeen[key] = true
 		g.needFldTag()
@@ -1680,7 +1684,7 @@ func (g *Gen) modifiedIn(body map[*ssa.BasicBlock]bool) map[string]bool {
 		g.lastFreshOnly = map[string]bool{}
 		if !m["*"] {
 			for c := range m {
-				if !oldw[c] && !strings.HasPrefix(c, "GH_") && !strings.HasPrefix(c, "L_") {
+				if !oldw[c] && !strings.HasPrefix(c, "GH_") && !strings.HasPrefix(c, "GS_") && !strings.HasPrefix(c, "L_") {
 					g.lastFreshOnly[c] = true
 				}
 			}
